@@ -1,4 +1,5 @@
 SPECIFICATION Spec
 INVARIANT XLaws
 INVARIANT ILaws
+INVARIANT CLaws
 CONSTRAINT Emit
